@@ -267,6 +267,9 @@ func runC15(c *core.Ctx) error {
 						sp := c15Spellings(p)
 						pair := sp[rapid.IntRange(0, len(sp)-1).Draw(t, "spelling")]
 						o.p1, o.p2 = pair[0], pair[1]
+					} else if p == plugin.GoHTTP && rapid.Bool().Draw(t, "mock:"+v) {
+						// the mock generator keeps state across the files of an invocation
+						o.p1 = "generate_mock=true"
 					}
 					jobs = append(jobs, o)
 				}
